@@ -114,9 +114,6 @@ impl Vm {
         seen: &mut HashSet<(usize, usize)>,
     ) -> Result<bool, Error> {
         loop {
-            if !left.is_pair() || !right.is_pair() {
-                return self.equal_seen(&left, &right, seen);
-            }
             let lcar = left.as_car()?;
             let rcar = right.as_car()?;
             if !self.equal_seen(&lcar, &rcar, seen)? {
@@ -126,8 +123,13 @@ impl Vm {
             let rcdr = right.as_cdr()?;
             left = self.heap.get(&lcdr);
             right = self.heap.get(&rcdr);
+            // The walk ends on the tails as the pairs store them, not on copies fetched
+            // through them: eqv knows a symbol by its location only.
+            if !left.is_pair() || !right.is_pair() {
+                return self.equal_seen(&lcdr, &rcdr, seen);
+            }
             // the walk comes back to a pair of tails it has already started from: a cycle
-            if left.is_pair() && right.is_pair() && !seen.insert((lcdr.as_ptr()?, rcdr.as_ptr()?)) {
+            if !seen.insert((lcdr.as_ptr()?, rcdr.as_ptr()?)) {
                 return Ok(true);
             }
         }
